@@ -87,6 +87,7 @@ pub fn generate(seed: u64, tier: Tier, forced: Option<(Cause, BodySpec)>) -> Pla
             name: format!("cl{ci}"), src: format!("192.0.2.{}:{}", 7 + ci, 40001 + ci).parse().unwrap(), dst: front,
             start_ns: rng.below(3) * MS, pace: Pace::random_budget(&mut rng, 60000, 200_000_000), pipeline: false, requests: reqs, abort: None,
             sndbuf: None, think_ns: 0, linger_ns: 0, give_up_ns: 0,
+            wait_board: None,
         });
     }
     // ---- the victim: last request of client 0, to cluster cv
